@@ -1,12 +1,13 @@
+\* design level, quick: the ideal specification satisfies the property (3 hole slots, 4 actions, or Populate + 3)
 SPECIFICATION Spec
 CONSTANTS
-  MaxHoles = 2
+  MaxHoles = 3
   Names = {"a", "b"}
   DepthLens = {1, 2}
   Version = 21
   Deviations = {}
-  MaxLevel = 5
-  Acts = {"AddHole", "AddDepthData", "AddIntervalData", "SetValues", "Rename", "RemoveDataViaParent", "RemoveDataViaWorkspace", "RemoveHoleViaParent", "RemoveHoleViaWorkspace", "RemovePropertyGroup", "AddValuesToTable", "Reopen", "CopyGroup"}
+  MaxLevel = 4
+  Acts = {"Populate", "AddHole", "AddDepthData", "AddIntervalData", "SetValues", "Rename", "RemoveDataViaParent", "RemoveDataViaWorkspace", "RemoveHoleViaParent", "RemoveHoleViaWorkspace", "RemovePropertyGroup", "AddValuesToTable", "Reopen", "CopyGroup"}
 VIEW vw
 INVARIANT AllTiled
 INVARIANT NoDuplicateOwner
@@ -18,5 +19,6 @@ INVARIANT ReadBackOK
 INVARIANT TableOK
 INVARIANT NeverBroken
 INVARIANT GroupChildrenLive
+INVARIANT PgCacheFresh
 PROPERTY Isolation
 CHECK_DEADLOCK FALSE
